@@ -23,6 +23,7 @@ Section Spec.
   Variable vfront : val.
   Variable vempty : val.
   Variable route : alist val -> option Z.
+  Variable kinst : Z.
 
   Notation op := (op val).
   Notation smap := (alist val).
@@ -35,8 +36,11 @@ Section Spec.
   Notation script_snaps := (script_snaps val rt).
   Notation script_data := (script_data val).
   Notation has_query := (has_query val).
+  Notation has_kick := (has_kick val).
 
-  Fixpoint conn_r (rh : list op) (sid : Z) : cstate :=
+  (* connection state and handle ownership depend on each other (a handle is created for an
+     existing connection; a script on a handle may kick its connection) *)
+  Fixpoint conn_r (rh : list op) (sid : Z) {struct rh} : cstate :=
     match rh with
     | [] => CNone
     | OConnect s :: older =>
@@ -45,10 +49,16 @@ Section Spec.
     | ORemove s :: older =>
         if Z.eqb s sid then match conn_r older sid with CLive => CDead | c => c end
         else conn_r older sid
+    | OBackScript b acts :: older =>
+        match bsid_r older b with
+        | Some s => if Z.eqb s sid && has_kick acts
+                    then match conn_r older sid with CLive => CDead | c => c end
+                    else conn_r older sid
+        | None => conn_r older sid
+        end
     | _ :: older => conn_r older sid
-    end.
-
-  Fixpoint bsid_r (rh : list op) (b : Z) : option Z :=
+    end
+  with bsid_r (rh : list op) (b : Z) {struct rh} : option Z :=
     match rh with
     | [] => None
     | OBackNew b' sid :: older =>
@@ -56,6 +66,13 @@ Section Spec.
           match bsid_r older b, conn_r older sid with
           | None, CNone => None
           | None, _ => Some sid
+          | x, _ => x
+          end
+        else bsid_r older b
+    | OForwardKeep sid b' :: older =>
+        if Z.eqb b' b then
+          match bsid_r older b, conn_r older sid with
+          | None, CLive => Some sid
           | x, _ => x
           end
         else bsid_r older b
@@ -127,7 +144,8 @@ Section Spec.
         match bsid_r older b with
         | Some s =>
             if Z.eqb s sid
-            then option_map (fun m => script_front m (bnew_r older b) (bdirty_r older b) acts) (fmap_r older sid)
+            then (if has_kick acts then None
+                  else option_map (fun m => script_front m (bnew_r older b) (bdirty_r older b) acts) (fmap_r older sid))
             else fmap_r older sid
         | None => fmap_r older sid
         end
@@ -153,6 +171,14 @@ Section Spec.
                         | None => bdata_r older b
                         end
           | None => []
+          end
+        else bdata_r older b
+    | OForwardKeep sid b' :: older =>
+        if Z.eqb b' b then
+          match bsid_r older b, fmap_r older sid with
+          | None, Some m => aset k_id (id_of val vempty m) []
+          | None, None => []
+          | Some _, _ => bdata_r older b
           end
         else bdata_r older b
     | OBackScript b' acts :: older =>
@@ -210,7 +236,8 @@ Section Spec.
   Definition spec_obs (h : list op) (o : op) : obs val :=
     match o with
     | OConnect sid => match conn_of h sid with CNone => BUnit | _ => BIgnored end
-    | ORemove sid | OFrontSet sid _ _ => match fmap h sid with Some _ => BUnit | None => BIgnored end
+    | ORemove sid => match fmap h sid with Some m => BClosed (norm m) | None => BIgnored end
+    | OFrontSet sid _ _ => match fmap h sid with Some _ => BUnit | None => BIgnored end
     | OFrontGet sid k => match fmap h sid with Some m => BVal (aget k m) | None => BIgnored end
     | OFrontDump sid => match fmap h sid with Some m => BMap (norm m) | None => BIgnored end
     | OForward sid => forward_spec h sid
@@ -238,7 +265,19 @@ Section Spec.
         end
     | OBackScript b acts =>
         match bsid h b with
-        | Some sid => BAcks (script_acks val (match fmap h sid with Some _ => true | None => false end) acts)
+        | Some sid =>
+            match fmap h sid with
+            | Some m =>
+                if has_kick acts
+                then BAcksClosed (script_acks val true acts) (norm (script_front m (bnew h b) (bdirty h b) acts))
+                else BAcks (script_acks val true acts)
+            | None => BAcks (script_acks val false acts)
+            end
+        | None => BIgnored
+        end
+    | OForwardKeep sid _ =>
+        match fmap h sid with
+        | Some m => BFwd kinst (id_of val vempty m) vfront sid
         | None => BIgnored
         end
     end.
